@@ -20,7 +20,8 @@ RULE = (
     "the python and rust plugins are run from the working tree (sub-process, scratch directory) under k Hypothesis-"
     "drawn PYTHONHASHSEED values; every top-level statement of types.py (aligned by defined name, ast.dump with "
     "docstring whitespace normalised) and every item of lib.rs (fresh output through rustfmt --edition 2021, byte "
-    "comparison, item-aligned report) is compared in both directions with the committed file. evaluations = statement/"
+    "comparison, item-aligned report) is compared in both directions with the committed file; the same for whatever "
+    "types.py / lib.rs a single invocation with several (or no) --plugin options writes. evaluations = statement/"
     "item comparisons; non-trivial = every statement/item (each is a distinct generated declaration); distinct = its name"
 )
 
@@ -125,15 +126,41 @@ def run(ctx: Ctx) -> None:
     evaluations = 0
     distinct = set()
     samples: List[Any] = []
-    for hs in seeds:
+    invocations = [("separate", None)] * len(seeds) + [("combined", ["--plugin", "python", "--plugin", "rust"]), ("combined", ["--plugin", "rust", "--plugin", "python"]),
+                                                        ("combined", [])]
+    combined_stats = {"invocations": 0, "files_compared": 0, "rejected_by_the_cli": 0}
+    for inv_i, (how, plugin_args) in enumerate(invocations):
+        hs = seeds[inv_i % len(seeds)]
         d = gen.scratch()
         try:
-            for plugin in ("python", "rust"):
-                r = gen.run_generator(plugin, os.path.join(d, plugin), hashseed=hs)
-                if r.returncode != 0:
-                    ctx.finding(("plugin-failed", plugin, "committed-model"), (r.stderr or r.stdout)[-400:], {"plugin": plugin, "hashseed": hs})
-            fpy = os.path.join(d, "python", "lsprotocol", "types.py")
-            frs = os.path.join(d, "rust", "lsprotocol", "src", "lib.rs")
+            files: List[Tuple[str, str]] = []   # (kind, path)
+            if how == "separate":
+                for plugin in ("python", "rust"):
+                    r = gen.run_generator(plugin, os.path.join(d, plugin), hashseed=hs)
+                    if r.returncode != 0:
+                        ctx.finding(("plugin-failed", plugin, "committed-model"), (r.stderr or r.stdout)[-400:], {"plugin": plugin, "hashseed": hs})
+                files = [("py", os.path.join(d, "python", "lsprotocol", "types.py")), ("rs", os.path.join(d, "rust", "lsprotocol", "src", "lib.rs"))]
+            else:
+                # every way the command line offers to run the two plugins in ONE invocation (several --plugin options, none
+                # at all): whatever types.py / lib.rs such a run writes is held to the same comparison
+                import subprocess
+                cmd = [gen.PY, "-B", "-m", "generator", *plugin_args, "--output-dir", os.path.join(d, "out"), "--test-dir", os.path.join(d, "out", "_tests")]
+                env = dict(os.environ, PYTHONHASHSEED=str(hs % (2**32)), PYTHONPATH=repo_path(), PYTHONDONTWRITEBYTECODE="1")
+                r = subprocess.run(cmd, cwd=repo_path(), env=env, capture_output=True, text=True, timeout=1800)
+                combined_stats["invocations"] += 1
+                for root_, _, names in os.walk(os.path.join(d, "out")):
+                    if "_tests" in root_.split(os.sep):
+                        continue
+                    for nm in names:
+                        if nm == "types.py" and os.path.basename(root_) == "lsprotocol":
+                            files.append(("py", os.path.join(root_, nm)))
+                        if nm == "lib.rs" and os.path.basename(root_) == "src":
+                            files.append(("rs", os.path.join(root_, nm)))
+                if r.returncode != 0 and not files:
+                    combined_stats["rejected_by_the_cli"] += 1   # this form is not offered by the tree: nothing to compare
+                combined_stats["files_compared"] += len(files)
+            fpy = next((p_ for k_, p_ in files if k_ == "py"), os.path.join(d, "<none>"))
+            frs = next((p_ for k_, p_ in files if k_ == "rs"), os.path.join(d, "<none>"))
             if os.path.exists(fpy):
                 fresh = py_statements(open(fpy, encoding="utf-8").read())
                 for name in sorted(set(fresh) | set(cpy)):
@@ -180,6 +207,7 @@ def run(ctx: Ctx) -> None:
     ctx.coverage.update({
         "evaluations": evaluations, "distinct_nontrivial": len(distinct), "rule": RULE, "samples": samples,
         "exhaustive": True, "python_statements": len(cpy), "rust_items": len(crs), "hash_seeds": seeds,
+        "single_invocation_forms": combined_stats,
     })
     ctx.assumptions = ["rustfmt --edition 2021 is the formatter pass of the build; docstring text is compared line-stripped"]
     if len(cpy) < 100 or len(crs) < 100:
